@@ -11,6 +11,40 @@ import (
 // that CurrentID reads) only after the data file is in place. The uploader
 // skips a round when CurrentID equals the index it would upload: an ID
 // published for data that never arrived marks a change as uploaded for good.
+// c37e: the uploader reads the backup back through the descriptor it handed to
+// Provide/Backup. When Store.Backup is given an *os.File it must fill that file:
+// replacing the path (rename over dst.Name()) leaves the caller's descriptor on
+// the old, empty inode, and an empty object is uploaded and recorded as done.
+func c37e(c *core.Ctx) {
+	fn := c.Fn("C37.e", "store", "(*Store).Backup")
+	if fn == nil {
+		return
+	}
+	names := 0
+	bad := false
+	var pos ssa.Instruction
+	for _, f := range an.WithClosures(fn) {
+		names += len(an.CallsTo(f, false, "os.File.Name"))
+		for _, call := range an.CallsTo(f, false, "os.Rename") {
+			args := call.Common().Args
+			if len(args) == 2 && an.MentionsCall(args[1], "os.File.Name") {
+				bad = true
+				pos = call.(ssa.Instruction)
+			}
+		}
+	}
+	c.Count("uses of the destination file's name in Store.Backup", names)
+	c.Min("uses of the destination file's name in Store.Backup", 1)
+	p := c.P.Pos(fn.Pos())
+	if pos != nil {
+		p = c.P.Pos(pos.Pos())
+	}
+	c.Sites++
+	c.Result(!bad, "C37.e", "CONST", "Store.Backup:fills-the-callers-file", p,
+		"a backup into an *os.File writes that file; its path is never replaced",
+		"Store.Backup renames another file over the destination file's path: the caller still holds a descriptor of the replaced (empty) file, so the automatic backup uploads an empty object and records the change as uploaded", nil)
+}
+
 func c37d(c *core.Ctx) {
 	fn := c.Fn("C37.d", "auto/file", "(*Client).Upload")
 	if fn == nil {
